@@ -41,7 +41,7 @@ def k1(ctx, kr):
         env.params['SemanticTokensFullRequest'] = lambda: LSP.mkstruct(P, 'SemanticTokensParams', text_document=LSP.mkstruct(P, 'TextDocumentIdentifier', uri=Agg('Url', [Str(st['uri'])])))
         env.params['Shutdown'] = UNIT
         req = LSP.mkstruct(P, 'Request', id=Agg('RequestId', [7]), method=meth, params=Opaque('json'))
-        return M.call_fn(key, [_server(P, env), req])
+        return M.call_fn(key, [_new_lsp_server(M, P), req])
     def on_path(M, pr):
         kr.paths += 1
         if pr.inconclusive: kr.inconc(pr.inconclusive); return
@@ -131,7 +131,7 @@ def k2(ctx, kr):
         elif kind == 1: msg = EnumV('Message', 1, [LSP.mkstruct(P, 'Response', id=Agg('RequestId', [9]), result=none(), error=none())])
         else: msg = EnumV('Message', 2, [LSP.mkstruct(P, 'Notification', method=meth, params=Opaque('json'))])
         st['kind'] = kind; st['msgs'] = [msg]
-        return M.call_fn(key, [Ref(Cell(Agg('LspServer', [Ref(Cell(Opaque('sender'))), Agg('LspProject', [Opaque('p')])]))), Ref(Cell(Opaque('receiver')))])
+        return M.call_fn(key, [_new_lsp_server(M, P), Ref(Cell(Opaque('receiver')))])
     def on_path(M, pr):
         kr.paths += 1
         if pr.inconclusive: kr.inconc(pr.inconclusive); return
@@ -191,7 +191,7 @@ def k2b(ctx, kr):
                       'DidChangeTextDocument': lambda: LSP.mkstruct(P, 'DidChangeTextDocumentParams', text_document=LSP.mkstruct(P, 'VersionedTextDocumentIdentifier', uri=Agg('Url', [Str('file:///d.st')]), version=2),
                                                                     content_changes=VecV([LSP.mkstruct(P, 'TextDocumentContentChangeEvent', range=none(), range_length=none(), text=Str('T%d' % i)) for i in range(nch)]))}
         notif = LSP.mkstruct(P, 'Notification', method=meth, params=Opaque('json'))
-        return M.call_fn(key, [Ref(Cell(Agg('LspServer', [Ref(Cell(Opaque('sender'))), Agg('LspProject', [Opaque('p')])]))), Ref(Cell(notif))])
+        return M.call_fn(key, [_new_lsp_server(M, P), Ref(Cell(notif))])
     def on_path(M, pr):
         kr.paths += 1
         if pr.inconclusive: kr.inconc(pr.inconclusive); return
@@ -319,4 +319,120 @@ def _replay_cross_file():
         return (d2 is None) or (r is None) or not alive, {'second_publish_received': d2 is not None, 'codes': [d.get('code') for d in (d2 or {}).get('params', {}).get('diagnostics', [])], 'later_request_answered': r is not None, 'alive': alive}
     return rp
 
-KERNELS = [k1, k2, k2b, k4]
+
+# ---------------------------------------------------------------------------------------------- K5 histories of two messages on one server: every request still answered exactly once
+def _new_lsp_server(M, P):
+    """the server value built by the tree's own LspServer::new, so that every field the tree declares is initialised the way the tree does it"""
+    k_new = [k for k in P.items if k[0] == 'ironplcc' and re.fullmatch(r'lsp::<impl at [^>]*>::new', k[1])]
+    if len(k_new) != 1: raise Unsupported('LspServer::new: %d candidates' % len(k_new))
+    return Ref(Cell(M.call_fn(k_new[0], [Ref(Cell(Opaque('sender'))), Agg('LspProject', [Opaque('wrapped project')])])))
+
+@kernel('K5 lsp.two_message_histories')
+def k5(ctx, kr):
+    P = ctx.program(CR)
+    k_req = P.find_fn('ironplcc', 'handle_request'); k_not = P.find_fn('ironplcc', 'handle_notification')
+    env = LSP.Env(P); st = {}
+    def st_tokenize(M, fr, callee, a):
+        if M.branch(M.fresh_bool('tokenize_ok')): return ok(VecV([]))
+        return err(VecV([]))
+    stubs = env.stubs(); stubs[r'^lsp_project::LspProject::tokenize$'] = st_tokenize
+    stubs[r'^lsp_project::LspProject::change_text_document$'] = lambda M, fr, c, a: UNIT
+    stubs[r'^lsp_project::LspProject::semantic$'] = lambda M, fr, c, a: VecV([])
+    M = Machine(P, stubs=stubs)
+    NOTIFS = dict(LSP.NOTIF_METHODS, **LSP.MORE_NOTIF_METHODS)
+    for second in ('notification', 'request'):
+        def entry(M):
+            env.sent.clear(); env.json_ok.clear(); st.clear()
+            srv = _new_lsp_server(M, P)
+            # first message: a request with id 7 that is not shutdown
+            meth, v, ids = LSP.sym_method(M, 'method1', ['SemanticTokensFullRequest']); st['m1'] = (meth, v, ids)
+            env.params['SemanticTokensFullRequest'] = lambda: LSP.mkstruct(P, 'SemanticTokensParams', text_document=LSP.mkstruct(P, 'TextDocumentIdentifier', uri=Agg('Url', [Str('file:///d.st')])))
+            req = LSP.mkstruct(P, 'Request', id=Agg('RequestId', [7]), method=meth, params=Opaque('json'))
+            M.call_fn(k_req, [srv, req])
+            st['after1'] = len(env.sent); st['json1'] = dict(env.json_ok); env.json_ok.clear()
+            if second == 'request':
+                meth2, v2, ids2 = LSP.sym_method(M, 'method2', ['SemanticTokensFullRequest']); st['m2'] = (meth2, v2, ids2, ['SemanticTokensFullRequest'])
+                req2 = LSP.mkstruct(P, 'Request', id=Agg('RequestId', [8]), method=meth2, params=Opaque('json'))
+                M.call_fn(k_req, [srv, req2])
+            else:
+                names = list(NOTIFS)
+                meth2, v2, ids2 = LSP.sym_method(M, 'method2', names); st['m2'] = (meth2, v2, ids2, names)
+                cid = M.fresh_bv('cancel_id', 32); st['cid'] = cid
+                env.params.update({'Exit': UNIT, 'Initialized': UNIT,
+                    'Cancel': lambda: LSP.mkstruct(P, 'CancelParams', id=EnumV('NumberOrString', P.enums['NumberOrString'].index('Number'), [cid])),
+                    'DidOpenTextDocument': lambda: LSP.mkstruct(P, 'DidOpenTextDocumentParams', text_document=LSP.mkstruct(P, 'TextDocumentItem', uri=Agg('Url', [Str('file:///d.st')]), language_id=Str('st'), version=1, text=Str('T'))),
+                    'DidChangeTextDocument': lambda: LSP.mkstruct(P, 'DidChangeTextDocumentParams', text_document=LSP.mkstruct(P, 'VersionedTextDocumentIdentifier', uri=Agg('Url', [Str('file:///d.st')]), version=2),
+                                                                  content_changes=VecV([LSP.mkstruct(P, 'TextDocumentContentChangeEvent', range=none(), range_length=none(), text=Str('T1'))]))})
+                notif = LSP.mkstruct(P, 'Notification', method=meth2, params=Opaque('json'))
+                M.call_fn(k_not, [srv, Ref(Cell(notif))])
+            return None
+        def on_path(M, pr):
+            kr.paths += 1
+            if pr.inconclusive: kr.inconc(pr.inconclusive); return
+            s = z3.Solver(); s.add(*pr.pc); kr.queries += 1
+            if s.check() != z3.sat: return
+            m = s.model(); kr.nontrivial += 1
+            def name_of(t, table):
+                meth, v, ids = t[0], t[1], t[2]
+                val = m.eval(v, True).as_long()
+                nm = [table[k] for k, i in ids.items() if i.as_long() == val]
+                return nm[0] if nm else ''.join(chr(x if isinstance(x, int) else m.eval(x, True).as_long()) for x in meth.b)
+            n1 = name_of(st['m1'], LSP.REQ_METHODS) if 'm1' in st else '?'
+            n2 = name_of(st['m2'], dict(LSP.REQ_METHODS, **NOTIFS)) if 'm2' in st else '(none)'
+            bad1 = [t for t, b in st.get('json1', {}).items() if not z3.is_true(m.eval(b, True))]
+            cid = m.eval(st['cid'], True).as_long() if 'cid' in st else None
+            wit = {'first': {'request': n1, 'id': 7, 'params_deserialise': not bad1}, 'second': {second: n2, 'cancel_id': cid}}
+            rep = ('lsp_two_messages', (n1, bool(bad1), second, n2, cid))
+            if pr.panic: _add(kr, 'C12/K5/panic/%s-then-%s' % (_cls(n1, bad1), _cls2(n2)), 'the server panics on the history %s: %s' % (wit, pr.panic.msg[:60]), wit, rep); return
+            resp = [x for x in _msgs_in(M, env, None) if isinstance(x, EnumV) and x.name == 'Message' and x.disc == 1]
+            ids_ = [simp(r.f[0].f[0].f[0]) for r in resp]
+            want = [7] if second == 'notification' else [7, 8]
+            if sorted(map(str, ids_)) != sorted(map(str, want)):
+                _add(kr, 'C12/K5/responses/%s-then-%s' % (_cls(n1, bad1), _cls2(n2) + ('-same-id' if cid == 7 else '')), 'history [request %s (id 7%s), %s %s%s]: responses carry the ids %s instead of %s' % (
+                    n1, ', params do not deserialise' if bad1 else '', second, n2, (' for id %d' % cid) if (cid is not None and 'cancel' in n2) else '', ids_, want), wit, rep)
+            elif len(kr.validate) < 2 and n2 == '$/cancelRequest' and cid == 7: kr.validate.append(rep)
+            if len(kr.samples) < 3: kr.samples.append({'history': wit, 'response_ids': [str(i) for i in ids_]})
+        M.explore(entry, on_path)
+    kr.queries += M.stats['smt']
+    kr.functions = fn_paths(P, M.encoded); kr.models = sorted(M.models_used)
+    kr.stubs = ['as K1/K2b; lsp_server::ReqQueue / Incoming::{register, complete, cancel, is_completed} by contract (set of pending request ids); the server value comes from the tree\'s own LspServer::new']
+    kr.bounds = ('histories of two messages on one server: a request (id 7; semantic tokens with good or malformed params, or any other method) followed by a notification (exit, didOpen, didChange, $/cancelRequest with a symbolic id, didClose, didSave, '
+                 'initialized or any other method) or by a second request (id 8): responses carry exactly the ids of the requests, once each')
+    kr.exhaustive = True
+    kr.outside = ['longer histories; requests sent by the server']
+
+def _cls(n, bad): return ('malformed-' if bad else '') + ('semanticTokens' if 'semanticTokens' in n else 'unknown-method')
+def _cls2(n): return re.sub(r'[^A-Za-z]+', '-', n).strip('-') if n in list(LSP.REQ_METHODS.values()) + list(LSP.NOTIF_METHODS.values()) + list(LSP.MORE_NOTIF_METHODS.values()) else 'unknown-method'
+
+@replay_factory('lsp_two_messages')
+def _replay_two_messages(n1, malformed1, second, n2, cid):
+    def rp(ctx):
+        import lspclient
+        s = lspclient.LspSession(ctx.ironplcc_path())
+        try:
+            s.initialize(); uri = 'file:///tmp/verif_c12h.st'
+            s.did_open(uri, 'PROGRAM p\nEND_PROGRAM\n', 1); s.diagnostics_for(uri, timeout=10)
+            m1 = n1 if n1 in LSP.REQ_METHODS.values() else 'textDocument/hover'
+            rid = s.request(m1, {'bogus': 1} if malformed1 else ({'textDocument': {'uri': uri}, 'position': {'line': 0, 'character': 0}} if 'hover' in m1 else {'textDocument': {'uri': uri}}))
+            seen = []
+            s.wait_for(lambda x: (seen.append(x) or True) and x.get('id') == rid, timeout=3)
+            rid2 = None
+            if second == 'request':
+                m2 = n2 if n2 in LSP.REQ_METHODS.values() else 'textDocument/hover'
+                rid2 = s.request(m2, {'textDocument': {'uri': uri}, 'position': {'line': 0, 'character': 0}} if 'hover' in m2 else {'textDocument': {'uri': uri}})
+            elif n2 == '$/cancelRequest': s.notify(n2, {'id': rid if cid == 7 else 12345})
+            elif n2 == 'textDocument/didChange': s.did_change(uri, ['PROGRAM p\nEND_PROGRAM\n'], 2)
+            elif n2 in ('textDocument/didOpen', 'exit'): pass
+            else: s.notify(n2 if '/' in n2 or n2 == 'initialized' else 'some/otherNotification', {})
+            probe = s.request('textDocument/semanticTokens/full', {'textDocument': {'uri': uri}})
+            s.wait_for(lambda x: (seen.append(x) or True) and x.get('id') == probe, timeout=3)
+            seen += s.drain(0.3)
+        finally:
+            s.close()
+        resp = [x for x in seen if ('result' in x or 'error' in x)]
+        count = lambda i: sum(1 for x in resp if x.get('id') == i)
+        bad = count(rid) != 1 or (rid2 is not None and count(rid2) != 1) or count(probe) != 1 or any(x.get('id') not in (rid, rid2, probe) for x in resp)
+        return bad, {'history': [m1, n2], 'responses_for_first_request': count(rid), 'responses_for_probe': count(probe), 'all_response_ids': [x.get('id') for x in resp]}
+    return rp
+
+KERNELS = [k1, k2, k2b, k4, k5]
